@@ -96,6 +96,9 @@ fn family_shapes() -> Vec<(&'static str, FamilyShape)> {
         ("diamond", vec![("L0", 0, vec!["QWidget"]), ("M1", 1, vec!["L0"]), ("M2", 1, vec!["L0"]), ("D", 2, vec!["M1", "M2"])]),
         // an unresolved super class listed FIRST must not matter for members that are declared (F10)
         ("dangling", vec![("L0", 0, vec!["QWidget"]), ("L1", 1, vec!["NoSuchBase", "L0"]), ("L2", 2, vec!["L1"])]),
+        // two classes deriving from each other above a proper base: every walk must end, declared members are found, a name
+        // nobody declares is unknown (answered in a child process: see ISOLATION in c17.rs)
+        ("cycle", vec![("L0", 0, vec!["QWidget"]), ("L1", 1, vec!["L2", "L0"]), ("L2", 2, vec!["L1"])]),
     ]
 }
 
@@ -200,6 +203,14 @@ pub fn generate(seed: u64, thorough: bool) -> Vec<Case> {
         }
     }
     cases
+}
+
+/// the class family of a whole-pipeline request holds a cycle of public super classes
+pub fn is_cyclic_request(args: &[Sexp]) -> bool {
+    match parse(args) {
+        Some(p) => p.classes.iter().any(|c| c.supers.iter().any(|(s, a)| *a == "pub" && derives(&p.classes, s, &c.name))),
+        None => false,
+    }
 }
 
 fn effective<'a>(classes: &'a [ClassSpec], name: &str) -> Option<&'a ClassSpec> {
@@ -541,7 +552,41 @@ pub fn answer_cli(args: &[Sexp]) -> Sexp {
         cmd.arg("--foreign-types").arg(format!("{}/contrib/metatypes/qt5{m}_metatypes.json", env::REPO));
     }
     cmd.arg("--foreign-types").arg("family.json").arg("Main.qml");
-    let out = cmd.output();
+    // 20 s: a look-up that does not terminate must not hang the run
+    cmd.stdin(std::process::Stdio::null()).stdout(std::process::Stdio::null()).stderr(std::process::Stdio::piped());
+    let out = match cmd.spawn() {
+        Ok(mut child) => {
+            let mut stderr = child.stderr.take().expect("piped stderr");
+            let reader = std::thread::spawn(move || {
+                use std::io::Read as _;
+                let mut v = vec![];
+                let _ = stderr.read_to_end(&mut v);
+                v
+            });
+            let start = std::time::Instant::now();
+            let status = loop {
+                match child.try_wait() {
+                    Ok(Some(s)) => break Some(s),
+                    Ok(None) if start.elapsed() > std::time::Duration::from_secs(20) => {
+                        let _ = child.kill();
+                        let _ = child.wait();
+                        break None;
+                    }
+                    Ok(None) => std::thread::sleep(std::time::Duration::from_millis(5)),
+                    Err(_) => break None,
+                }
+            };
+            let stderr = reader.join().unwrap_or_default();
+            match status {
+                Some(status) => Ok(std::process::Output { status, stdout: vec![], stderr }),
+                None => {
+                    let _ = std::fs::remove_dir_all(&dir);
+                    return node("fail", vec![st("cli-timeout"), node("seconds", vec![atom("20")]), node("document", vec![st(doc)])]);
+                }
+            }
+        }
+        Err(e) => Err(e),
+    };
     let written = dir.join("main.ui").is_file();
     let _ = std::fs::remove_dir_all(&dir);
     let out = match out {
